@@ -13,6 +13,7 @@ import socket
 import ssl
 import tempfile
 import threading
+import time
 import typing
 
 from vf import wire
@@ -169,6 +170,8 @@ class Listener(threading.Thread):
         self.log: list[dict[str, typing.Any]] = []
         self.lock = threading.Lock()
         self.stop = False
+        self.own_ports: set[int] = set()
+        self.foreign = 0
         self.idle_timeout = 3.0
         self.handlers: list[threading.Thread] = []
 
@@ -181,6 +184,21 @@ class Listener(threading.Thread):
                 continue
             except OSError:
                 break
+            # Loopback ports are shared with every other process on the machine (and ephemeral ports get reused): only
+            # connections dialled by this harness's own client side are served and logged, anything else is dropped.
+            try:
+                peer_port = c.getpeername()[1]
+            except OSError:
+                c.close()
+                continue
+            for _ in range(40):
+                if peer_port in self.own_ports:
+                    break
+                time.sleep(0.005)
+            else:
+                self.foreign += 1
+                c.close()
+                continue
             with self.lock:
                 idx = len(self.log)
                 entry: dict[str, typing.Any] = {"conn": idx, "done": threading.Event()}
@@ -364,7 +382,11 @@ class TLSNet:
 
         def create_connection(address: tuple[str, int], timeout: typing.Any = None, source_address: typing.Any = None, socket_options: typing.Any = None) -> socket.socket:
             self.dials.append((address[0], address[1]))
-            s = socket.create_connection(("127.0.0.1", self.listener.port), timeout=5.0)
+            s = socket.socket(socket.AF_INET, socket.SOCK_STREAM)
+            s.settimeout(5.0)
+            s.bind(("127.0.0.1", 0))
+            self.listener.own_ports.add(s.getsockname()[1])
+            s.connect(("127.0.0.1", self.listener.port))
             self.client_socks.append(s)
             return s
 
